@@ -1,0 +1,243 @@
+//! Verification hooks. Compiled only with the cargo feature `verif_hooks`.
+//! Add-only public wrappers around crate-private items so that an external
+//! harness can drive and observe the real code. Nothing here changes behaviour.
+
+use std::net::IpAddr;
+use std::sync::Mutex;
+
+use bevy::prelude::*;
+use bevy::reflect::TypeRegistry;
+use uuid::Uuid;
+
+use crate::lib_priv::SyncTrackerRes;
+use crate::networking::assets::SyncAssetTransfer;
+use crate::proto::{Message, SyncAssetType};
+use crate::SyncConnectionParameters;
+
+/// Public mirror of the crate-private protocol `Message`.
+#[derive(Debug, Clone, PartialEq)]
+pub enum VMessage {
+    EntitySpawn { id: Uuid },
+    EntityParented { entity_id: Uuid, parent_id: Uuid },
+    EntityDelete { id: Uuid },
+    ComponentUpdated { id: Uuid, name: String, data: Vec<u8> },
+    StandardMaterialUpdated { id: Uuid, material: Vec<u8> },
+    MeshUpdated { id: Uuid, url: String },
+    ImageUpdated { id: Uuid, url: String },
+    AudioUpdated { id: Uuid, url: String },
+    PromoteToHost,
+    NewHost { ip: IpAddr, port: u16, web_port: u16, max_transfer: usize },
+    RequestInitialSync,
+    FinishedInitialSync,
+}
+
+impl VMessage {
+    fn to_message(&self) -> Message {
+        match self.clone() {
+            VMessage::EntitySpawn { id } => Message::EntitySpawn { id },
+            VMessage::EntityParented { entity_id, parent_id } => Message::EntityParented { entity_id, parent_id },
+            VMessage::EntityDelete { id } => Message::EntityDelete { id },
+            VMessage::ComponentUpdated { id, name, data } => Message::ComponentUpdated { id, name, data },
+            VMessage::StandardMaterialUpdated { id, material } => Message::StandardMaterialUpdated { id, material },
+            VMessage::MeshUpdated { id, url } => Message::MeshUpdated { id, url },
+            VMessage::ImageUpdated { id, url } => Message::ImageUpdated { id, url },
+            VMessage::AudioUpdated { id, url } => Message::AudioUpdated { id, url },
+            VMessage::PromoteToHost => Message::PromoteToHost,
+            VMessage::NewHost { ip, port, web_port, max_transfer } => Message::NewHost {
+                params: SyncConnectionParameters::Socket { ip, port, web_port, max_transfer },
+            },
+            VMessage::RequestInitialSync => Message::RequestInitialSync,
+            VMessage::FinishedInitialSync => Message::FinishedInitialSync,
+        }
+    }
+
+    fn from_message(m: &Message) -> VMessage {
+        match m {
+            Message::EntitySpawn { id } => VMessage::EntitySpawn { id: *id },
+            Message::EntityParented { entity_id, parent_id } => VMessage::EntityParented {
+                entity_id: *entity_id,
+                parent_id: *parent_id,
+            },
+            Message::EntityDelete { id } => VMessage::EntityDelete { id: *id },
+            Message::ComponentUpdated { id, name, data } => VMessage::ComponentUpdated {
+                id: *id,
+                name: name.clone(),
+                data: data.clone(),
+            },
+            Message::StandardMaterialUpdated { id, material } => VMessage::StandardMaterialUpdated {
+                id: *id,
+                material: material.clone(),
+            },
+            Message::MeshUpdated { id, url } => VMessage::MeshUpdated { id: *id, url: url.clone() },
+            Message::ImageUpdated { id, url } => VMessage::ImageUpdated { id: *id, url: url.clone() },
+            Message::AudioUpdated { id, url } => VMessage::AudioUpdated { id: *id, url: url.clone() },
+            Message::PromoteToHost => VMessage::PromoteToHost,
+            Message::NewHost { params } => match params {
+                SyncConnectionParameters::Socket { ip, port, web_port, max_transfer } => VMessage::NewHost {
+                    ip: *ip,
+                    port: *port,
+                    web_port: *web_port,
+                    max_transfer: *max_transfer,
+                },
+            },
+            Message::RequestInitialSync => VMessage::RequestInitialSync,
+            Message::FinishedInitialSync => VMessage::FinishedInitialSync,
+        }
+    }
+
+    /// Exactly what the senders do: `bincode::serialize(&Message)`.
+    pub fn encode(&self) -> Vec<u8> {
+        bincode::serialize(&self.to_message()).unwrap()
+    }
+
+    /// Exactly what the receivers do: `bincode::deserialize::<Message>`.
+    pub fn decode(bytes: &[u8]) -> Option<VMessage> {
+        bincode::deserialize::<Message>(bytes).ok().map(|m| VMessage::from_message(&m))
+    }
+}
+
+type Tap = Box<dyn FnMut(bool, &VMessage) + Send>;
+static TAP: Mutex<Option<Tap>> = Mutex::new(None);
+
+/// Install (or clear) the receive tap: called once per message a receiver handles,
+/// with `true` when the receiver is the host side.
+pub fn set_tap(tap: Option<Tap>) {
+    *TAP.lock().unwrap_or_else(|e| e.into_inner()) = tap;
+}
+
+pub(crate) fn tap_received(is_server: bool, m: &Message) {
+    if let Ok(mut g) = TAP.lock() {
+        if let Some(f) = g.as_mut() {
+            f(is_server, &VMessage::from_message(m));
+        }
+    }
+}
+
+pub fn reflect_to_bin(v: &dyn Reflect, registry: &TypeRegistry) -> Result<Vec<u8>, String> {
+    crate::binreflect::reflect_to_bin(v, registry).map_err(|e| e.to_string())
+}
+
+pub fn bin_to_reflect(data: &[u8], registry: &TypeRegistry) -> Box<dyn Reflect> {
+    crate::binreflect::bin_to_reflect(data, registry)
+}
+
+pub fn mesh_to_bin(mesh: &Mesh) -> Vec<u8> {
+    crate::networking::assets::verif_mesh_to_bin(mesh)
+}
+
+pub fn bin_to_mesh(bin: &[u8]) -> Mesh {
+    crate::networking::assets::verif_bin_to_mesh(bin)
+}
+
+pub fn image_to_bin(image: &Image) -> Option<Vec<u8>> {
+    crate::networking::assets::verif_image_to_bin(image)
+}
+
+pub fn bin_to_image(bin: &[u8]) -> Option<Image> {
+    crate::networking::assets::verif_bin_to_image(bin)
+}
+
+/// Tracker statistics of one App.
+#[derive(Debug, Clone, Default, PartialEq)]
+pub struct TrackerStats {
+    pub uuid_to_entity: Vec<(Uuid, Entity)>,
+    pub entity_to_uuid: Vec<(Entity, Uuid)>,
+    pub queue: Vec<(Uuid, String)>,
+    pub component_tokens: Vec<(Uuid, String)>,
+    pub handle_tokens: Vec<Uuid>,
+    pub sync_materials: bool,
+    pub sync_meshes: bool,
+    pub sync_audios: bool,
+    pub host_promotion_in_progress: bool,
+}
+
+pub fn tracker_stats(world: &World) -> Option<TrackerStats> {
+    let t = world.get_resource::<SyncTrackerRes>()?;
+    let mut s = TrackerStats {
+        uuid_to_entity: t.uuid_to_entity.iter().map(|(u, e)| (*u, *e)).collect(),
+        entity_to_uuid: t.entity_to_uuid.iter().map(|(e, u)| (*e, *u)).collect(),
+        queue: t
+            .changed_components_to_send
+            .iter()
+            .map(|c| (c.change_id.id, c.change_id.name.clone()))
+            .collect(),
+        component_tokens: t
+            .pushed_component_from_network
+            .iter()
+            .map(|c| (c.id, c.name.clone()))
+            .collect(),
+        handle_tokens: t.pushed_handles_from_network.iter().copied().collect(),
+        sync_materials: t.sync_materials,
+        sync_meshes: t.sync_meshes,
+        sync_audios: t.sync_audios,
+        host_promotion_in_progress: t.host_promotion_in_progress,
+    };
+    s.uuid_to_entity.sort();
+    s.entity_to_uuid.sort();
+    s.component_tokens.sort();
+    s.handle_tokens.sort();
+    Some(s)
+}
+
+/// Asset-transfer statistics of one App: downloads queued or running, and downloaded
+/// payloads waiting to be applied by the `process_*_assets` systems.
+#[derive(Debug, Clone, Default, PartialEq)]
+pub struct TransferStats {
+    pub downloads_active: usize,
+    pub downloads_queued: usize,
+    pub meshes_to_apply: usize,
+    pub images_to_apply: usize,
+    pub audios_to_apply: usize,
+    pub meshes_served: Vec<Uuid>,
+    pub images_served: Vec<Uuid>,
+    pub audios_served: Vec<Uuid>,
+}
+
+pub fn transfer_stats(world: &World) -> Option<TransferStats> {
+    world.get_resource::<SyncAssetTransfer>().map(|t| t.verif_stats())
+}
+
+/// Stand-alone asset endpoint (the HTTP server + caches of one peer) without an App.
+pub struct AssetEndpoint {
+    inner: SyncAssetTransfer,
+}
+
+#[derive(Debug, Clone, Copy, PartialEq, Eq)]
+pub enum AssetClass {
+    Mesh,
+    Image,
+    Audio,
+}
+
+impl AssetEndpoint {
+    pub fn new(addr: IpAddr, port: u16, max_transfer: usize) -> Self {
+        Self { inner: SyncAssetTransfer::new(addr, port, max_transfer) }
+    }
+    pub fn serve_mesh(&mut self, id: &Uuid, mesh: &Mesh) -> String {
+        self.inner.serve_mesh(id, mesh)
+    }
+    pub fn serve_image(&mut self, id: &Uuid, image: &Image) -> String {
+        self.inner.serve_image(id, image)
+    }
+    pub fn serve_audio(&mut self, id: &Uuid, audio: &AudioSource) -> String {
+        self.inner.serve_audio(id, audio)
+    }
+    pub fn request(&self, class: AssetClass, id: Uuid, url: String) {
+        let c = match class {
+            AssetClass::Mesh => SyncAssetType::Mesh,
+            AssetClass::Image => SyncAssetType::Image,
+            AssetClass::Audio => SyncAssetType::Audio,
+        };
+        self.inner.request(c, id, url)
+    }
+    pub fn stats(&self) -> TransferStats {
+        self.inner.verif_stats()
+    }
+    /// Bytes currently cached for serving / downloaded and waiting to be applied.
+    pub fn served_bytes(&self, class: AssetClass, id: &Uuid) -> Option<Vec<u8>> {
+        self.inner.verif_cached(class, id, false)
+    }
+    pub fn downloaded_bytes(&self, class: AssetClass, id: &Uuid) -> Option<Vec<u8>> {
+        self.inner.verif_cached(class, id, true)
+    }
+}
